@@ -29,6 +29,7 @@ type Job struct {
 	MaxCases  int     `json:"max_cases,omitempty"`
 	DetCheck  int     `json:"det_check"` // re-execute every n-th case and compare trace hashes (0: never)
 	Only      string  `json:"only,omitempty"`
+	Dump      bool    `json:"dump,omitempty"` // record one fingerprint line per case (determinism self-test)
 }
 
 // Found is a reported violation with its replay file.
@@ -60,6 +61,7 @@ type BatchResult struct {
 	DetMismatch   []string          `json:"det_mismatch,omitempty"`
 	ReplayOutcome string            `json:"replay_outcome,omitempty"`
 	MaxTasks      int               `json:"max_tasks"`
+	Dump          []string          `json:"dump,omitempty"`
 }
 
 // ReplayFile is the on-disk form of one failing execution.
@@ -451,6 +453,9 @@ func TestBatch(t *testing.T) {
 			vs, o := r.evaluate(&c)
 			res.Cases++
 			r.note(o)
+			if job.Dump {
+				res.Dump = append(res.Dump, fmt.Sprintf("%d %x %v %q steps=%d picks=%d", idx, o.Sim.TraceHash, o.Verdict, o.Err, o.Sim.Steps, len(o.Sim.Picks)))
+			}
 			if job.DetCheck > 0 && mine%job.DetCheck == 0 {
 				o2 := Execute(t, &c)
 				res.DetChecked++
